@@ -287,8 +287,12 @@ def run_case(case, ctx):
         if begs and any(tuple(bg["rhs"].shape[-2:-1]) != (n,) for bg in begs):
             # CG ran on a PART of the operator (a Kronecker factor, a block): its relative residual there is amplified by the condition of
             # the other parts in the residual of the whole system
-            bound = min(0.5, bound * max(kappa, 1.0))
+            bound = bound * max(kappa, 1.0)
             ctx.stat("cg_on_a_part_of_the_operator(bound amplified by kappa)")
+            if bound >= 1.0:
+                # (e.g. the default cg_tolerance of 1.0: nothing follows for the whole system from a part solved to that accuracy)
+                ctx.stat("cg_on_a_part_bound_vacuous(not judged)")
+                return
         if left is None:
             g64 = got.to(torch.float64)
             if rhs.dim() > 1:
